@@ -736,13 +736,29 @@ static void gen_handshake(Rng& r, const std::vector<Net>& nets, HSta& s, int sid
     }
     Bytes ptk = rf::ptk_of(n.pmk, s.bssid, s.mac, anonce, snonce); s.ptk.push_back(ptk);
     int d1 = dups(), d2 = dups(), d3 = dups(), d4 = dups(); if (d1) cnt("hs:dup-M1"); if (d2) cnt("hs:dup-M2"); if (d3) cnt("hs:dup-M3"); if (d4) cnt("hs:dup-M4");
-    push(1, eapol_key(s.ever, (u16)(0x0088 | v), klen, s.replay, anonce, zero16, r.chance(1, 2) ? pmkid : Bytes(), nullptr), true, d1, false);
-    push(2, eapol_key(s.ever, (u16)(0x0108 | v), r.chance(1, 2) ? 0 : klen, s.replay, snonce, zero16, rsnie, ptk.data()), false, d2, false);
+    Bytes e1 = eapol_key(s.ever, (u16)(0x0088 | v), klen, s.replay, anonce, zero16, r.chance(1, 2) ? pmkid : Bytes(), nullptr);
+    Bytes e2 = eapol_key(s.ever, (u16)(0x0108 | v), r.chance(1, 2) ? 0 : klen, s.replay, snonce, zero16, rsnie, ptk.data());
+    push(1, e1, true, d1, false);
+    push(2, e2, false, d2, false);
     ++s.replay;
-    push(3, eapol_key(s.ever, (u16)(0x13c8 | v), klen, s.replay, anonce, r.bytes(16), r.bytes(8 * (3 + r.below(8))), ptk.data()), true, d3, false);
+    Bytes e3 = eapol_key(s.ever, (u16)(0x13c8 | v), klen, s.replay, anonce, r.bytes(16), r.bytes(8 * (3 + r.below(8))), ptk.data());
+    push(3, e3, true, d3, false);
     if (r.chance(1, 6)) { ++s.replay; push(3, eapol_key(s.ever, (u16)(0x13c8 | v), klen, s.replay, anonce, r.bytes(16), r.bytes(56), ptk.data()), true, 0, false); cnt("hs:M3-retransmitted-with-new-replay-counter"); }
     Bytes m4 = eapol_key(s.ever, (u16)(0x0308 | v), r.chance(1, 2) ? 0 : klen, s.replay, r.chance(1, 2) ? Bytes(32, 0) : snonce, zero16, Bytes(), ptk.data());
     push(4, m4, false, d4, true);
+    // the public key-derivation route, used directly on the four messages with the two addresses in either order (a hand-built RSNHandshake):
+    // the PTK must be the reference PTK whichever address is named first (the derivation sorts them, IEEE 802.11 12.7.1.3)
+    if (r.chance(1, 3)) {
+        try { std::vector<RSNEAPOL> msgs; for (const Bytes* e : {&e1, &e2, &e3, &m4}) { ExactBuf eb(*e); msgs.push_back(RSNEAPOL(eb.data(), (u32)e->size())); }
+            bool ap_first = r.chance(1, 2); RSNHandshake hs(ap_first ? hw(s.bssid) : hw(s.mac), ap_first ? hw(s.mac) : hw(s.bssid), msgs);
+            Crypto::WPA2::SessionKeys::pmk_type pmk(n.pmk.begin(), n.pmk.end());
+            Crypto::WPA2::SessionKeys k(hs, pmk); Bytes got(k.get_ptk().begin(), k.get_ptk().end());
+            if (got != ptk || k.uses_ccmp() != s.ccmp) viol("session-keys/ptk-differs", std::string("SessionKeys(RSNHandshake(") + (ap_first ? "authenticator, supplicant" : "supplicant, authenticator") + "), pmk) derived another PTK than the reference (sta=" + macs(s.mac) + " bssid=" + macs(s.bssid) + ")");
+            else cnt(ap_first ? "hs:session-keys-direct:authenticator-first" : "hs:session-keys-direct:supplicant-first");
+            cnt(s.mac < s.bssid ? "hs:session-keys-direct:supplicant-address-lower" : "hs:session-keys-direct:authenticator-address-lower"); }
+        catch (const Crypto::WPA2::invalid_handshake&) { viol("session-keys/valid-handshake-rejected", "SessionKeys(RSNHandshake, pmk) threw invalid_handshake for the four messages of a valid handshake (sta=" + macs(s.mac) + " bssid=" + macs(s.bssid) + ")"); }
+        catch (const malformed_packet&) { viol("session-keys/eapol-rejected", "RSNEAPOL rejected a reference handshake message"); }
+    }
     if (r.chance(1, 5)) {                                                   // message 4 was lost on the air towards the AP: M3/M4 once more after completion
         ++s.replay; push(3, eapol_key(s.ever, (u16)(0x13c8 | v), klen, s.replay, anonce, r.bytes(16), r.bytes(56), ptk.data()), true, 0, false);
         push(4, eapol_key(s.ever, (u16)(0x0308 | v), 0, s.replay, Bytes(32, 0), zero16, Bytes(), ptk.data()), false, 0, false); cnt("hs:M3-M4-again-after-completion");
